@@ -517,7 +517,10 @@ def step (st : St) (op : List String) (obs : Json) : St × String :=
           let sg := Signer.init (jtok (jget sj "id")) (jtok (jget sj "pk")) (jtok (jget sj "tak")) none
           { a with st := { a.st with signers := sput a.st.signers "A" sg } }
         | "sign" =>
-          let mine := opk == "sign" && op.getD 1 "" == "A"
+          -- the command of this very op (not the start-up exchange that the first line also shows)
+          let mine := opk == "sign" && op.getD 1 "" == "A" && ret != "noslot" &&
+            (jnat (jget c "v")) == ((cmds.filter fun x => jstr (jget x "e") == "ta_signer:ta").map
+              fun x => jnat (jget x "v")).foldl max 0
           stepSign a "A" (jget c "m") (if mine then ovr else none) (jstr (jget c "r") == "success")
             (if mine then jget obs "out" else Json.null)
         | _ => a
